@@ -9,7 +9,7 @@ redo process that started it survives and records the outcome), at four instants
 import random, re, shutil
 from concurrent.futures import ThreadPoolExecutor
 from common import *
-from proj import Project, clean_env
+from proj import Project, clean_env, kill_orphans
 import depsgen, deps_check
 
 ASSUMPTIONS = [
@@ -442,10 +442,7 @@ def log_viewer_killed_scenario(when):
             os.killpg(p.pid, signal.SIGKILL)
             out, err = p.communicate()
             rc0 = -999
-        try:
-            os.killpg(p.pid, signal.SIGKILL)
-        except (ProcessLookupError, PermissionError):
-            pass
+        kill_orphans(p.pid)
         problems = []
         info = dict(when=when, viewer_killed=killed, rc_of_the_build=rc0)
         if not killed:
